@@ -13,8 +13,9 @@ import numpy as np
 from mc import runner
 
 PID = "C16"
-MINS = (0.0, -1.0, 0.1, -0.35, 1 / 3, -20.3, 1000.1, -2)    # last: int
-SPACINGS = (0.1, 0.3, 1 / 3, 0.7, 0.05, 0.03125, 60.3, 1e-3, 1)   # last: int
+MINS = (0.0, -1.0, 0.1, -0.35, 1 / 3, -20.3, 1000.1, 1e-13, -2)  # last: int
+SPACINGS = (0.1, 0.3, 1 / 3, 0.7, 0.05, 0.03125, 60.3, 1e-3, 1e-9 / 3,
+            1e-13 / 3, 1)   # last: int
 ORDERS = (2, 4, 6, 8)
 
 
@@ -78,7 +79,9 @@ def _attr_case_style(task, parfile):
                         int(getattr(fd, 'N' + c))))
             continue
         expect = m0 + np.arange(n) * dd
-        tol = 1e-12 * max(abs(m0), abs(m0 + n * dd)) + 1e-9 * dd
+        # a couple of units in the last place of the largest coordinate:
+        # the points are at min + i*spacing, not at a rounded version of it
+        tol = 2 * np.spacing(max(abs(m0), abs(m0 + n * dd)))
         if np.abs(arr - expect).max() > tol:
             bad.append(('coords', c, float(np.abs(arr - expect).max())))
         if getattr(fd, c + 'max') != arr[-1]:
@@ -312,8 +315,8 @@ def main(tier):
     run.sample({'grid': {'axis': 'x', 'N': 7, 'min': 0.1, 'spacing': 0.3},
                 'expected': 'len(xarray)==7, xarray[i]=0.1+0.3 i'})
     run.sample({'attr tasks': [list(t) for t in tasks[100:103]]})
-    run.assume("coordinates compared with min + i*spacing up to "
-               "1e-12*max|coord| + 1e-9*spacing")
+    run.assume("coordinates compared with min + i*spacing up to 2 ulp of "
+               "the largest coordinate")
     return run.finish({
         'evaluations': len(tasks) + len(ttasks) + len(ctasks) + nrt,
         'distinct_nontrivial': len(run.distinct),
